@@ -137,6 +137,36 @@ func register() {
 			}
 		}
 		isProp, _ := in["prop"].(bool)
+		// "history": what is done to the lists that EARLIER reads of 字符组 of this same text handed back, before the read that
+		// is reported: the characters of a text are the characters of the text whatever happened to those lists
+		if hist, ok := in["history"].([]interface{}); ok && in["via"] != "interp" {
+			for _, h := range hist {
+				prev, err := s.GetProperty("字符组")
+				arr, isArr := prev.(*value.Array)
+				if err != nil || !isArr {
+					continue
+				}
+				func() {
+					defer func() { recover() }()
+					switch h.(string) {
+					case "swap":
+						arr.ExecMethod("交换", []r.Element{value.NewNumber(1), value.NewNumber(float64(len(arr.GetValue())))})
+					case "set-first":
+						arr.SetProperty("首项", value.NewString("X"))
+					case "set-index":
+						value.NewArrayIV(arr, 1).ReduceLHS(value.NewString("Y"))
+					case "pop-add":
+						arr.ExecMethod("右移", []r.Element{})
+						arr.ExecMethod("后增", []r.Element{value.NewString("Z")})
+					case "shift-add":
+						arr.ExecMethod("左移", []r.Element{})
+						arr.ExecMethod("前增", []r.Element{value.NewString("W")})
+					case "reverse-assign":
+						arr.ExecMethod("后增", []r.Element{value.NewString("Q")})
+					}
+				}()
+			}
+		}
 		if in["via"] == "interp" {
 			inputs := r.ElementMap{"甲": s}
 			names := []string{"乙", "丙", "丁"}
